@@ -1,6 +1,7 @@
 package main
 
 import (
+	"encoding/json"
 	"flag"
 	"fmt"
 	"strings"
@@ -11,6 +12,7 @@ var (
 	pubN        = flag.Int("n", 2, "scenarios per (family, type)")
 	pubFaults   = flag.String("faults", "none", "none | single")
 	pubMaxRuns  = flag.Int("maxruns", 4000, "cap on executed runs")
+	pubShards   = flag.Int("shards", 1, "write the runs as this many independent Coq files (shard_<k>/observed.v + index.json), evaluated in parallel")
 	pubGate     = flag.Int("gate", 600, "size of the sample of the request product (0 = all)")
 )
 
@@ -65,6 +67,13 @@ func genScenarios(r *rng) []*scenario {
 				k++
 				out = append(out, genDeliver(r, k))
 			}
+		case "hidden":
+			for i := 0; i < *pubN; i++ {
+				k++
+				out = append(out, genHidden(r, k))
+			}
+		case "shape":
+			out = append(out, genShape(r, *pubN)...)
 		case "gate":
 			out = append(out, gateScenarios(r, *pubGate)...)
 		case "gettypes":
@@ -119,26 +128,59 @@ func runPub() {
 			}
 		}
 	}
-	for _, sc := range scs {
+	K := *pubShards
+	if K < 1 || len(runs) > 0 {
+		K = 1 // sequences / histories / worlds refer to run indices: one file
+	}
+	ems := []*emitter{em}
+	for k := 1; k < K; k++ {
+		ems = append(ems, newEmitter())
+	}
+	shardRuns := make([][]string, K)
+	shardIdx := make([][]int, K)
+	shardRuns[0] = runs
+	for i := range runs {
+		shardIdx[0] = append(shardIdx[0], i)
+	}
+	total := len(runs)
+	for si, sc := range scs {
+		k := si % K
+		e := ems[k]
 		res := runScenario(sc)
-		runs = append(runs, em.run(sc, &res))
+		shardRuns[k] = append(shardRuns[k], e.run(sc, &res))
+		shardIdx[k] = append(shardIdx[k], total)
+		total++
+		if len(sc.Faults) == 0 && (strings.HasSuffix(sc.Family, ":Add") || strings.HasSuffix(sc.Family, ":Remove")) {
+			e.world(len(shardRuns[k])-1, sc) // C16 / C04: which targets were owned when the request arrived
+		}
 		meta = append(meta, map[string]interface{}{"family": sc.Family, "note": sc.Note, "faults": sc.Faults, "result": res.Result, "handled": res.Handled, "statuses": res.Statuses, "body": sc.Body, "send": sc.Send, "panic": res.PanicMsg, "events": len(res.Trace)})
 		fam[sc.Family]++
 		results[res.Result]++
 		s.Evaluations++
 		if *pubFaults == "single" && !strings.HasPrefix(sc.Family, "gate:") {
-			for f := 0; f < res.NFall && len(runs) < *pubMaxRuns; f++ {
+			for f := 0; f < res.NFall && total < *pubMaxRuns; f++ {
 				sc2 := *sc
 				sc2.Faults = []int{f}
 				res2 := runScenario(&sc2)
-				runs = append(runs, em.run(&sc2, &res2))
+				shardRuns[k] = append(shardRuns[k], e.run(&sc2, &res2))
+				shardIdx[k] = append(shardIdx[k], total)
+				total++
 				meta = append(meta, map[string]interface{}{"family": sc.Family, "faults": sc2.Faults, "result": res2.Result, "handled": res2.Handled, "statuses": res2.Statuses, "body": sc.Body, "send": sc.Send, "panic": res2.PanicMsg, "events": len(res2.Trace)})
 				results[res2.Result]++
 				s.Evaluations++
 			}
 		}
 	}
-	writeFile("observed.v", []byte(em.file(runs)))
+	runs = make([]string, total) // only its length is used below
+	if K == 1 {
+		writeFile("observed.v", []byte(em.file(shardRuns[0])))
+	} else {
+		for k := 0; k < K; k++ {
+			writeFile(fmt.Sprintf("shard_%d/observed.v", k), []byte(ems[k].file(shardRuns[k])))
+			b, _ := json.Marshal(shardIdx[k])
+			writeFile(fmt.Sprintf("shard_%d/index.json", k), b)
+		}
+	}
 	s.Distinct = len(runs)
 	s.Dist["families"] = fam
 	s.Dist["results"] = results
